@@ -311,6 +311,8 @@ class ElectionProfile:
             self._bltParse(data)
         except StopIteration:
             raise ElectionProfileError('bad blt file: unexpected end-of-file')
+        except ValueError as emsg:  # a numeral too long for int() (CPython limits the digits of int conversion)
+            raise ElectionProfileError('bad blt file: %s' % emsg)
 
     def _bltParse(self, data):
         '''
